@@ -825,13 +825,12 @@ static bool is_circle(const Array<Vec2> point_array, double tolerance, Vec2& cen
 
     if (point_array.count < arc_num_points(2 * M_PI, radius, tolerance)) return false;
 
-    double radius_sq = radius * radius;
     double neighbor_distance_sq = tolerance + 2 * sqrt(2 * tolerance * (radius - tolerance));
     neighbor_distance_sq *= neighbor_distance_sq;
     Vec2* pt = point_array.items;
     Vec2* last = point_array.items + point_array.count - 1;
     for (uint64_t i = point_array.count; i > 0; i--) {
-        if (fabs((*pt - center).length_sq() - radius_sq) >= tolerance ||
+        if (fabs((*pt - center).length() - radius) >= tolerance ||
             (*pt - *last).length_sq() >= neighbor_distance_sq) {
             return false;
         }
